@@ -434,7 +434,7 @@ pub fn run(run: &mut Run) -> Finish {
         // document order: stable by generated position (the writer needs non-decreasing lines)
         let doc = rv3_write(&m);
         if let Some((sig, what)) = check_doc(doc.as_bytes(), Kind::Regular, Some(&m.obs()), "long") {
-            l.violation(idx, Viol::new(format!("C02/{sig}"), what.chars().take(3000).collect::<String>(), json!({"kind": "model", "model": serde_json::to_value(&m).unwrap()})));
+            l.violation(idx, Viol::new(format!("C02/{sig}"), what.chars().take(3000).collect::<String>(), json!({"kind": "model", "tag": "long", "model": serde_json::to_value(&m).unwrap()})));
         }
         l.case(true, h64(&("G", idx)));
     });
@@ -444,7 +444,7 @@ pub fn run(run: &mut Run) -> Finish {
         let m = x_map(idx & ((1 << 40) - 1));
         let doc = rv3_write(&m);
         if let Some((sig, what)) = check_doc(doc.as_bytes(), Kind::Regular, Some(&m.obs()), "extreme-coordinates") {
-            l.violation(idx, Viol::new(format!("C02/{sig}"), what, json!({"kind": "model", "model": serde_json::to_value(&m).unwrap()})));
+            l.violation(idx, Viol::new(format!("C02/{sig}"), what, json!({"kind": "model", "tag": "extreme-coordinates", "model": serde_json::to_value(&m).unwrap()})));
         }
         l.case(true, h64(&("X", m.tokens.iter().map(|t| (t.gc >> 30, t.src.map(|s| (s.1 >> 30, s.2 >> 30)))).collect::<Vec<_>>())));
     });
@@ -491,7 +491,8 @@ pub fn recheck(case: &Value) -> Vec<Viol> {
         Some("keys") => check_k(case["subset"].as_u64().unwrap_or(0), case["order"].as_u64().unwrap_or(0) as usize, case["header"].as_u64().unwrap_or(0) as usize, case["layout"].as_u64().unwrap_or(0) as usize).into_iter().collect(),
         Some("model") => {
             let Ok(m) = serde_json::from_value::<RMap>(case["model"].clone()) else { return vec![] };
-            check_doc(rv3_write(&m).as_bytes(), Kind::Regular, Some(&m.obs()), "extreme-coordinates").map(|(s, w)| Viol::new(format!("C02/{s}"), w, case.clone())).into_iter().collect()
+            let tag = case["tag"].as_str().unwrap_or("extreme-coordinates").to_string();
+            check_doc(rv3_write(&m).as_bytes(), Kind::Regular, Some(&m.obs()), &tag).map(|(s, w)| Viol::new(format!("C02/{s}"), w, case.clone())).into_iter().collect()
         }
         Some("lenient") => check_v(case["which"].as_u64().unwrap_or(0) as usize, case["k"].as_u64().unwrap_or(0)).into_iter().collect(),
         _ => vec![],
